@@ -130,6 +130,37 @@ def twin_blocks(P, rep, rule="SIB.kinds"):
     rep.floor(rule, n, 10, "kind blocks and hand-over sites")
 
 
+def section_roles(P, F):
+    """the bookkeeping locals of SubductingPlate/Fault::properties by what they are initialised from, not by their names:
+    role -> actual name for section_fraction (<r>.fraction_of_section), current_section (<r>.section), current_segment
+    (<r>.segment) and next_section (current_section + 1)"""
+    roles = {}
+    decls = [x for x in F.walk() if x.get("k") == "VarDecl" and x.get("c") and x.get("n")]
+    for x in decls:
+        t = norm.render(P, x["c"][0], nocast=True).replace(" ", "")
+        for field, role in ((".fraction_of_section", "section_fraction"), (".section", "current_section"), (".segment", "current_segment")):
+            if t.endswith(field) and re.match(r"^[\w.]+$", t) and role not in roles:
+                roles[role] = x["n"]
+    cur = roles.get("current_section")
+    if cur:
+        for x in decls:
+            t = norm.render(P, x["c"][0], nocast=True).replace(" ", "")
+            if t in ("(%s+1)" % cur, "(1+%s)" % cur, "%s+1" % cur) and "next_section" not in roles:
+                roles["next_section"] = x["n"]
+    return roles
+
+
+def role_renderer(P, F, roles):
+    """render with the bookkeeping locals spelled by their role names"""
+    sub = [(re.compile(r"\b%s\b" % re.escape(actual)), role) for role, actual in roles.items() if actual != role]
+    def R(x):
+        t = norm.render(P, x, nocast=True).replace(" ", "")
+        for rx, role in sub:
+            t = rx.sub(role, t)
+        return t
+    return R
+
+
 def updated_by_section(P, F, key):
     """'current_section' / 'next_section' if the local `key` is assigned only inside loops over the models of
     segment_vector[<that section>][...]; 'both' if by both; None if by neither"""
@@ -138,9 +169,9 @@ def updated_by_section(P, F, key):
         if x.get("k") in ("BinaryOperator", "CXXOperatorCallExpr") and x.get("op") == "=" and astq.is_ref_to(x["c"][0], key):
             for a in F.ancestors(x):
                 if a.get("k") == "CXXForRangeStmt":
-                    rng = norm.render(P, a["c"][1], nocast=True)
+                    rng = role_renderer(P, F, section_roles(P, F))(a["c"][1])
                     for sname in ("current_section", "next_section"):
-                        if "segment_vector[%s]" % sname in rng.replace(" ", ""):
+                        if "segment_vector[%s]" % sname in rng:
                             hits.add(sname)
                     break
     if len(hits) == 1:
@@ -155,11 +186,13 @@ def interpolation_shape(P, rep, rule="I1"):
     n = 0
     for cls in LINE.values():
         F = P.func(cls + "::properties")
-        R = lambda x: norm.render(P, x, nocast=True).replace(" ", "")
+        roles = section_roles(P, F)
+        R = role_renderer(P, F, roles)
         decls = {x.get("n"): x for x in F.walk() if x.get("k") == "VarDecl" and x.get("c")}
         for nm in ("section_fraction", "current_section", "next_section"):
-            if nm not in decls:
-                raise AnalysisBroken("%s: local %s not found" % (F.qn, nm))
+            if nm not in roles:
+                raise AnalysisBroken("%s: local in the role of %s not found" % (F.qn, nm))
+            decls[nm] = decls[roles[nm]]
         src = R(decls["section_fraction"]["c"][0]), R(decls["current_section"]["c"][0]), R(decls["next_section"]["c"][0])
         base = src[0].rsplit(".", 1)[0]
         if src[0] == base + ".fraction_of_section" and src[1] == base + ".section" and src[2] in ("(current_section+1)", "(1+current_section)"):
@@ -235,9 +268,9 @@ def interpolation_shape(P, rep, rule="I1"):
                 import sympy as sp
                 symb = norm.Sym(P, F, inline_locals=False)
                 E = sp.expand(symb(par))
-                fs = [q for q in E.free_symbols if str(q).startswith("section_fraction@")]
-                cs = [q for q in E.free_symbols if str(q).startswith("current_section@")]
-                ns = [q for q in E.free_symbols if str(q).startswith("next_section@")]
+                fs = [q for q in E.free_symbols if str(q).startswith(roles["section_fraction"] + "@")]
+                cs = [q for q in E.free_symbols if str(q).startswith(roles["current_section"] + "@")]
+                ns = [q for q in E.free_symbols if str(q).startswith(roles["next_section"] + "@")]
                 gp = par
                 if len(fs) == 1 and len(cs) == 1 and len(ns) <= 1:
                     f_ = fs[0]
@@ -310,7 +343,7 @@ def section_model_loops(P, rep, rule="I1.models"):
         for loop in F.walk():
             if loop.get("k") != "CXXForRangeStmt":
                 continue
-            rng = norm.render(P, loop["c"][1], nocast=True).replace(" ", "")
+            rng = role_renderer(P, F, section_roles(P, F))(loop["c"][1])
             m = re.match(r"^segment_vector\[(\w+)\]\[(\w+)\]\.(\w+)_systems$", rng)
             if not m:
                 continue
